@@ -131,6 +131,26 @@ fn nested_waker(owner: u32, inner: std::task::Waker) -> std::task::Waker {
     unsafe { Waker::from_raw(RawWaker::new(data, &VT)) }
 }
 
+/// A future type *without drop glue* (plain data); `Output = Tok`.
+#[derive(Clone, Copy)]
+pub struct PlainChild {
+    pub id: u32,
+}
+impl Future for PlainChild {
+    type Output = Tok;
+    fn poll(self: Pin<&mut Self>, cx: &mut Context<'_>) -> Poll<Tok> {
+        let addr = &*self as *const PlainChild as usize;
+        let w = w();
+        match w.fut_poll(self.id, addr, cx) {
+            Some(_) => {
+                let _g = leave_crate();
+                Poll::Ready(Tok::new(ObjKind::Tok, self.id, 0))
+            }
+            None => Poll::Pending,
+        }
+    }
+}
+
 /// `!Unpin` future; `Output = Result<Tok, ErrTok>`.
 pub struct TryChild(pub Child);
 impl Future for TryChild {
